@@ -376,6 +376,7 @@ package table
 //@   loop 0 invariant forall k int :: 0 <= k && k <= __iter ==> newASparams[k] != nil
 //@   ensures result != nil && fresh(result) && len(result.Value) == len(asAttr.Value) && (forall k int :: 0 <= k && k < len(result.Value) ==> result.Value[k] != nil)
 //@ func (*Path).PrependAsn
+//@   tag C10 C11
 //@   address-quant
 //@   assume-checks
 //@   requires path != nil && wfAsPath(path)
@@ -694,6 +695,7 @@ package table
 // adds exactly the AS4_PATH hops (per-segment fact, telescoped by hand).
 //@ func UpdatePathAttrs4ByteAs
 //@   math-int
+//@   tag C14 C11
 //@   claims inv-init inv-keep step at-call
 // from C11 (the packers budget from Len(), the stored Length): an AS_PATH whose segments were widened to 4-octet
 // members is rebuilt by the constructor, which recomputes Length and the extended-length flag (called() is per
